@@ -6,16 +6,26 @@
 //	merge <locs>                                                          TermLocations.MergeOverlapping
 //	frag <fsize> <text> <locs>                                            SimpleFragmenter.Fragment on an ORDERED list
 //	fmt <html|ansi> <text> <fstart> <fend> <locs-with-nil>                FragmentFormatter.Format
-//	best|beste <html|ansi> <fsize> <num> <text> <locs>                    SimpleHighlighter.BestFragments (beste: locations of a real search)
-//	e2e <analyzer> <qtype> <html|ansi> <fsize> <num> <text> <query>       script only: index + search, then emits frag + beste lines
+//	best|beste|bestx|bestm <html|ansi> <fsize> <num> <text> <locs> [quiet=…]  SimpleHighlighter.BestFragments, called several times on the
+//	                                                                      same map: the result is the sorted set of distinct outputs joined by '|'
+//	                                                                      (beste/bestx/bestm: locations of a real search, see below)
+//	e2e <analyzer> <qtype> <html|ansi> <fsize> <num> <text> <query>       script only: index + search (bundled analyzer, one field value), emits frag + beste
+//	e2ex <analyzer> <html|ansi> <fsize> <num> <text> <pickseed>           script only: analyzer assembled from the bundled shingle / dictionary-compound /
+//	                                                                      edge-n-gram / n-gram filters, should-query on terms of overlapping tokens, emits bestx
+//	e2em <analyzer> <html|ansi> <fsize> <num> <text,text[,text]> <pickseed>  script only: one field with several values (bundled analyzer), emits bestm for one value
 //
 // locs = "-" or items "termhex,pos,start,end" (or "nil") separated by ';'.
+// quiet=<reasons>: the oracles (order, marks, multi) whose finding is not listed in known_findings.json; the driver
+// reports them as `ok` plus an `open-finding:` counter (see checks/c20.py).
 package main
 
 import (
 	"context"
+	"encoding/json"
 	"fmt"
 	"html"
+	"os"
+	"path/filepath"
 	"sort"
 	"strconv"
 	"strings"
@@ -24,6 +34,10 @@ import (
 	"github.com/blugelabs/bluge"
 	"github.com/blugelabs/bluge/analysis"
 	"github.com/blugelabs/bluge/analysis/analyzer"
+	"github.com/blugelabs/bluge/analysis/lang/cjk"
+	"github.com/blugelabs/bluge/analysis/lang/en"
+	"github.com/blugelabs/bluge/analysis/token"
+	"github.com/blugelabs/bluge/analysis/tokenizer"
 	"github.com/blugelabs/bluge/search"
 	"github.com/blugelabs/bluge/search/highlight"
 
@@ -34,8 +48,10 @@ type h struct{}
 
 func (h) Rule() string {
 	return "texts built from ASCII, 2/3/4-byte-rune, HTML-special and U+FFFD words, shorter than / about / much longer than the fragment size (1,5,20,100,200 runes); " +
-		"(a) end-to-end: one-document in-memory index (stored text field with HighlightMatches), match/phrase/prefix/fuzzy/term queries on words taken from both ends and the middle, locations from IncludeLocations, both formatters; " +
-		"(b) direct calls of Fragment/Format/MergeOverlapping/BestFragments with search-like location sets (token spans on rune boundaries) and adversarial ones (negative, out of range, overlapping, nested, unsorted, mid-rune, reversed) on valid and on arbitrary byte texts; " +
+		"(a) end-to-end: one-document in-memory index (stored text field with HighlightMatches, analyzers standard/simple/web/keyword/en/cjk), match/phrase/prefix/fuzzy/term queries on words taken from both ends and the middle, locations from IncludeLocations, both formatters; " +
+		"(a') the same with analyzers assembled from the bundled shingle, dictionary-compound, edge-n-gram and n-gram filters (tokens with equal Starts, nested tokens) and with a field holding 2-3 values, should-queries on terms of overlapping tokens; " +
+		"(b) direct calls of Fragment/Format/MergeOverlapping/BestFragments with search-like location sets (token spans on rune boundaries), shingle-like (same Start, several Ends) and compound-like (nested) ones, and adversarial ones (negative, out of range, overlapping, nested, unsorted, mid-rune, reversed, equal Starts) on valid and on arbitrary byte texts; " +
+		"every BestFragments call is repeated on the same map (2x; 12x with equal Starts; 24x for a') and the SET of outputs is compared with the set the model computes over all Less-sorted orders; " +
 		"(c) the utf8/html primitives on structured malformed byte strings. A case is non-trivial when it has at least one location or at least one multi-byte/invalid byte; distinct by op line"
 }
 
@@ -209,6 +225,34 @@ func genText(r *hlib.Rand, runes int, fffd bool) text {
 	return t
 }
 
+var cjkWords = []string{"日本語", "テキスト", "東京", "東京都", "検索", "全文検索", "中文", "한국어", "日", "本日", "語学", "日本", "京都", "ｶﾀｶﾅ", "漢字かな"}
+var compoundWords = []string{"softball", "football", "footballer", "basketball", "ball", "soft", "foot", "basket", "handball", "balls", "softly", "barefoot", "the", "a", "plays"}
+
+// genTextFrom: like genText, with `pct` percent of the words taken from `special`
+func genTextFrom(r *hlib.Rand, runes int, special []string, pct int) text {
+	var t text
+	n := 0
+	for n < runes || len(t.words) == 0 {
+		var w string
+		if r.Chance(pct) {
+			w = special[r.Intn(len(special))]
+		} else {
+			w = asciiWords[r.Intn(len(asciiWords))]
+		}
+		st := len(t.b)
+		t.b = append(t.b, w...)
+		t.spans = append(t.spans, [2]int{st, len(t.b)})
+		t.words = append(t.words, w)
+		n += utf8.RuneCountInString(w)
+		if n < runes || r.Chance(20) {
+			s := seps[r.Intn(len(seps))]
+			t.b = append(t.b, s...)
+			n += utf8.RuneCountInString(s)
+		}
+	}
+	return t
+}
+
 var fsizes = []int{1, 5, 20, 100, 200}
 
 func pickSize(r *hlib.Rand) int { return fsizes[r.Weighted(2, 4, 4, 2, 1)] }
@@ -276,7 +320,51 @@ func advLocs(r *hlib.Rand, n int, t text) []loc {
 			return n + 1 + r.Intn(4)
 		}
 	}
-	mode := r.Intn(8)
+	mode := r.Intn(10)
+	if mode >= 8 && len(t.spans) == 0 {
+		mode = r.Intn(8)
+	}
+	if mode == 8 { // shingle-like: a word span and spans from the same Start to the end of the next words (equal Starts, different Ends)
+		for g := 0; g < 1+r.Intn(2); g++ {
+			i := r.Intn(len(t.spans))
+			for j := i; j < len(t.spans) && j < i+1+r.Intn(3); j++ {
+				ls = append(ls, loc{term: fmt.Sprintf("s%d_%d", i, j), pos: i + 1, start: t.spans[i][0], end: t.spans[j][1]})
+			}
+		}
+		if r.Chance(50) {
+			i := r.Intn(len(t.spans))
+			ls = append(ls, loc{term: "w", pos: i + 1, start: t.spans[i][0], end: t.spans[i][1]})
+		}
+		if r.Chance(50) {
+			shuffle(r, ls)
+		}
+		return ls
+	}
+	if mode == 9 { // compound-like: a word span and pieces of it on rune boundaries (nested locations)
+		for g := 0; g < 1+r.Intn(2); g++ {
+			i := r.Intn(len(t.spans))
+			sp := t.spans[i]
+			ls = append(ls, loc{term: fmt.Sprintf("c%d", i), pos: i + 1, start: sp[0], end: sp[1]})
+			var bd []int
+			for o := sp[0]; o <= sp[1]; {
+				bd = append(bd, o)
+				if o == sp[1] {
+					break
+				}
+				_, sz := utf8.DecodeRune(t.b[o:sp[1]])
+				o += sz
+			}
+			for p := 0; p < 1+r.Intn(2) && len(bd) > 2; p++ {
+				x := r.Intn(len(bd) - 1)
+				y := x + 1 + r.Intn(len(bd)-1-x)
+				ls = append(ls, loc{term: fmt.Sprintf("c%d_%d", i, p), pos: i + 1, start: bd[x], end: bd[y]})
+			}
+		}
+		if r.Chance(50) {
+			shuffle(r, ls)
+		}
+		return ls
+	}
 	for i := 0; i < k; i++ {
 		var a, b int
 		switch mode {
@@ -318,16 +406,84 @@ func advLocs(r *hlib.Rand, n int, t text) []loc {
 	return ls
 }
 
-func distinctStarts(ls []loc) []loc {
-	seen := map[int]bool{}
-	var out []loc
+// limitTies keeps the number of Less-sorted orders of a location set enumerable by the model driver (it caps at
+// 48 orders per line): a Start that occurs with several Ends keeps at most 3 spans, one location each, and at most
+// 2 Starts may have several Ends (the others keep the locations of their first span). Locations with the same span
+// are interchangeable for everything downstream of the sort and are not limited.
+func limitTies(ls []loc) []loc {
+	ends := map[int][]int{} // distinct Ends per Start, in order of appearance
 	for _, l := range ls {
-		if !seen[l.start] {
-			seen[l.start] = true
-			out = append(out, l)
+		if l.isNil {
+			continue
+		}
+		known := false
+		for _, e := range ends[l.start] {
+			if e == l.end {
+				known = true
+			}
+		}
+		if !known {
+			ends[l.start] = append(ends[l.start], l.end)
 		}
 	}
+	multi := 0
+	tied := map[int]bool{}
+	var out []loc
+	used := map[[2]int]bool{}
+	for _, l := range ls {
+		if l.isNil {
+			out = append(out, l)
+			continue
+		}
+		es := ends[l.start]
+		if len(es) == 1 {
+			out = append(out, l)
+			continue
+		}
+		if !tied[l.start] && multi < 2 {
+			tied[l.start] = true
+			multi++
+		}
+		if !tied[l.start] { // too many tied Starts: only the first span of this one
+			if l.end == es[0] {
+				out = append(out, l)
+			}
+			continue
+		}
+		rank := 0
+		for i, e := range es {
+			if e == l.end {
+				rank = i
+			}
+		}
+		if rank >= 3 || used[[2]int{l.start, l.end}] {
+			continue
+		}
+		used[[2]int{l.start, l.end}] = true
+		out = append(out, l)
+	}
 	return out
+}
+
+func shuffle(r *hlib.Rand, ls []loc) {
+	for i := len(ls) - 1; i > 0; i-- {
+		j := r.Intn(i + 1)
+		ls[i], ls[j] = ls[j], ls[i]
+	}
+}
+
+func hasTies(ls []loc) bool {
+	seen := map[int]bool{}
+	for _, l := range ls {
+		if l.isNil {
+			continue
+		}
+		if seen[l.start] {
+			return true
+		}
+		seen[l.start] = true
+	}
+	return false
 }
 
 func kindOf(r *hlib.Rand) string {
@@ -340,7 +496,7 @@ func kindOf(r *hlib.Rand) string {
 func (h) Gen(r *hlib.Rand, tier string, scale int, emit func(string)) {
 	n := 700 * scale
 	if tier == "thorough" {
-		n = 6000 * scale
+		n = 9000 * scale
 	}
 	// (c) primitives
 	for i := 0; i < n; i++ {
@@ -363,12 +519,17 @@ func (h) Gen(r *hlib.Rand, tier string, scale int, emit func(string)) {
 		}
 	}
 	// (a) end to end
-	analyzers := []string{"standard", "simple", "web", "keyword"}
+	analyzers := []string{"standard", "simple", "web", "keyword", "en", "cjk"}
 	qtypes := []string{"match", "match", "match", "phrase", "prefix", "fuzzy", "term", "matchall"}
 	for i := 0; i < n; i++ {
 		fs := pickSize(r)
-		t := genText(r, pickRunes(r, fs, tier), r.Chance(12))
-		an := analyzers[r.Weighted(6, 3, 2, 1)]
+		an := analyzers[r.Weighted(6, 3, 2, 1, 2, 3)]
+		var t text
+		if an == "cjk" {
+			t = genTextFrom(r, pickRunes(r, fs, tier), cjkWords, 80)
+		} else {
+			t = genText(r, pickRunes(r, fs, tier), r.Chance(12))
+		}
 		qt := qtypes[r.Intn(len(qtypes))]
 		var q string
 		pick := func() string {
@@ -406,6 +567,41 @@ func (h) Gen(r *hlib.Rand, tier string, scale int, emit func(string)) {
 		num := []int{1, 1, 2, 3, 5}[r.Intn(5)]
 		emit(fmt.Sprintf("e2e %s %s %s %d %d %s %s", an, qt, kindOf(r), fs, num, hlib.Hex(t.b), hlib.Hex([]byte(q))))
 	}
+	// (a') analyzers that emit tokens with equal Starts / nested tokens, and multi-valued fields
+	xan := []string{"shingle", "dict", "edgengram", "ngram", "cjkuni"}
+	for i := 0; i < n/2; i++ {
+		fs := pickSize(r)
+		an := xan[r.Weighted(4, 4, 1, 1, 2)]
+		var t text
+		switch an {
+		case "dict": // its offsets count runes (C18): ASCII words only
+			t = genTextFrom(r, pickRunes(r, fs, tier), compoundWords, 100)
+		case "cjkuni":
+			t = genTextFrom(r, pickRunes(r, fs, tier), cjkWords, 80)
+		default:
+			t = genText(r, pickRunes(r, fs, tier), false)
+		}
+		num := []int{1, 1, 2, 3, 5}[r.Intn(5)]
+		emit(fmt.Sprintf("e2ex %s %s %d %d %s %d", an, kindOf(r), fs, num, hlib.Hex(t.b), r.Intn(1<<30)))
+	}
+	man := []string{"standard", "simple", "en", "cjk"}
+	for i := 0; i < n/4; i++ {
+		fs := pickSize(r)
+		an := man[r.Weighted(5, 2, 2, 2)]
+		nv := 2 + r.Intn(2)
+		var hx []string
+		for k := 0; k < nv; k++ {
+			var t text
+			if an == "cjk" {
+				t = genTextFrom(r, pickRunes(r, fs, "quick"), cjkWords, 80)
+			} else {
+				t = genText(r, pickRunes(r, fs, "quick"), false)
+			}
+			hx = append(hx, hlib.Hex(t.b))
+		}
+		num := []int{1, 1, 2, 3}[r.Intn(4)]
+		emit(fmt.Sprintf("e2em %s %s %d %d %s %d", an, kindOf(r), fs, num, strings.Join(hx, ","), r.Intn(1<<30)))
+	}
 	// (b) direct calls
 	for i := 0; i < 3*n; i++ {
 		fs := pickSize(r)
@@ -430,7 +626,7 @@ func (h) Gen(r *hlib.Rand, tier string, scale int, emit func(string)) {
 		emit(fmt.Sprintf("frag %d %s %s", fs, hx, encLocs(ls)))
 		emit("merge " + encLocs(ls))
 		num := []int{1, 1, 2, 3, 5, 0}[r.Intn(6)]
-		emit(fmt.Sprintf("best %s %d %d %s %s", kindOf(r), fs, num, hx, encLocs(distinctStarts(ls))))
+		emit(fmt.Sprintf("best %s %d %d %s %s", kindOf(r), fs, num, hx, encLocs(limitTies(ls))))
 		// formatter on a fragment chosen independently of the fragmenter
 		a, b := 0, len(t.b)
 		if len(t.spans) > 0 && !adversarial {
@@ -469,8 +665,181 @@ func newAnalyzer(name string) *analysis.Analyzer {
 		return analyzer.NewWebAnalyzer()
 	case "keyword":
 		return analyzer.NewKeywordAnalyzer()
+	case "en":
+		return en.NewAnalyzer()
+	case "cjk":
+		return cjk.Analyzer()
 	}
 	return analyzer.NewStandardAnalyzer()
+}
+
+// analyzers assembled from bundled components whose tokens share Starts or are nested in one another
+func newXAnalyzer(name string) *analysis.Analyzer {
+	base := func(fs ...analysis.TokenFilter) *analysis.Analyzer {
+		return &analysis.Analyzer{Tokenizer: tokenizer.NewUnicodeTokenizer(), TokenFilters: append([]analysis.TokenFilter{token.NewLowerCaseFilter()}, fs...)}
+	}
+	switch name {
+	case "shingle":
+		return base(token.NewShingleFilter(2, 3, true, " ", "_"))
+	case "dict":
+		d := analysis.NewTokenMap()
+		for _, w := range []string{"soft", "ball", "foot", "basket", "hand", "bare", "all", "ask"} {
+			d.AddToken(w)
+		}
+		return base(token.NewDictionaryCompoundFilter(d, 5, 3, 15, false))
+	case "edgengram":
+		return base(token.NewEdgeNgramFilter(token.FRONT, 1, 4))
+	case "ngram":
+		return base(token.NewNgramFilter(2, 3))
+	case "cjkuni": // CJK bigrams with the unigrams kept (NewBigramFilter(true))
+		return base(cjk.NewWidthFilter(), cjk.NewBigramFilter(true))
+	}
+	return nil
+}
+
+// runTerms: index `values` as one field, search a should-query of term queries, return the stored values and the
+// locations of the field
+func runTerms(a *analysis.Analyzer, values [][]byte, terms []string) (stored [][]byte, ls []loc, matched bool, err error) {
+	w, err := bluge.OpenWriter(bluge.InMemoryOnlyConfig())
+	if err != nil {
+		return nil, nil, false, err
+	}
+	defer w.Close()
+	doc := bluge.NewDocument("d")
+	for _, v := range values {
+		doc.AddField(bluge.NewTextField("body", string(v)).StoreValue().HighlightMatches().WithAnalyzer(a))
+	}
+	if err = w.Update(doc.ID(), doc); err != nil {
+		return nil, nil, false, err
+	}
+	rd, err := w.Reader()
+	if err != nil {
+		return nil, nil, false, err
+	}
+	defer rd.Close()
+	q := bluge.NewBooleanQuery()
+	for _, t := range terms {
+		q.AddShould(bluge.NewTermQuery(t).SetField("body"))
+	}
+	dmi, err := rd.Search(context.Background(), bluge.NewTopNSearch(5, q).IncludeLocations())
+	if err != nil {
+		return nil, nil, false, err
+	}
+	m, err := dmi.Next()
+	if err != nil || m == nil {
+		return nil, nil, false, err
+	}
+	err = m.VisitStoredFields(func(field string, value []byte) bool {
+		if field == "body" {
+			stored = append(stored, append([]byte{}, value...))
+		}
+		return true
+	})
+	if err != nil {
+		return nil, nil, true, err
+	}
+	tlm := m.Locations["body"]
+	ts := make([]string, 0, len(tlm))
+	for t := range tlm {
+		ts = append(ts, t)
+	}
+	sort.Strings(ts)
+	for _, t := range ts {
+		for _, l := range tlm[t] {
+			ls = append(ls, loc{term: t, pos: l.Pos, start: l.Start, end: l.End})
+		}
+	}
+	return stored, ls, true, nil
+}
+
+// pickTerms: the term of a random token, the terms of tokens overlapping it, sometimes one more
+func pickTerms(r *hlib.Rand, toks analysis.TokenStream) []string {
+	if len(toks) == 0 {
+		return nil
+	}
+	seen := map[string]bool{}
+	var out []string
+	add := func(t *analysis.Token) {
+		if !seen[string(t.Term)] && len(out) < 4 {
+			seen[string(t.Term)] = true
+			out = append(out, string(t.Term))
+		}
+	}
+	for g := 0; g < 1+r.Intn(2); g++ {
+		a := toks[r.Intn(len(toks))]
+		add(a)
+		for _, t := range toks {
+			if t.Start < a.End && a.Start < t.End && r.Chance(60) {
+				add(t)
+			}
+		}
+	}
+	if r.Chance(40) {
+		add(toks[r.Intn(len(toks))])
+	}
+	return out
+}
+
+// which findings of this property are listed in known_findings.json (any status): their oracles are judged;
+// the others are reported by the driver as `ok` plus an `open-finding:` counter
+var findingReasons = map[string]string{
+	"order": "equal-start-locations-order-dependent-output",
+	"marks": "merge-overlapping-mark-cut-at-nested-end",
+	"multi": "multi-valued-field-locations-of-all-values-applied",
+}
+
+var quietCache = map[string]string{}
+
+func quietFor(work string, reasons ...string) string {
+	key := work + "/" + strings.Join(reasons, ",")
+	if q, ok := quietCache[key]; ok {
+		return q
+	}
+	listed := map[string]bool{}
+	if os.Getenv("VERIF_C20_JUDGE_ALL") != "" {
+		for _, sig := range findingReasons {
+			listed[sig] = true
+		}
+	}
+	roots := []string{filepath.Dir(filepath.Dir(work))}
+	if abs, err := filepath.Abs(work); err == nil {
+		roots = append(roots, filepath.Dir(filepath.Dir(abs)))
+	}
+	if exe, err := os.Executable(); err == nil {
+		roots = append(roots, filepath.Dir(filepath.Dir(exe)))
+	}
+	for _, root := range roots {
+		b, err := os.ReadFile(filepath.Join(root, "known_findings.json"))
+		if err != nil {
+			continue
+		}
+		var kf struct {
+			Findings []struct {
+				Property  string `json:"property"`
+				Signature string `json:"signature"`
+			} `json:"findings"`
+		}
+		if json.Unmarshal(b, &kf) == nil {
+			for _, f := range kf.Findings {
+				if f.Property == "C20" {
+					listed[f.Signature] = true
+				}
+			}
+			break
+		}
+	}
+	var q []string
+	for _, rs := range reasons {
+		if !listed[findingReasons[rs]] {
+			q = append(q, rs)
+		}
+	}
+	res := ""
+	if len(q) > 0 {
+		res = " quiet=" + strings.Join(q, ",")
+	}
+	quietCache[key] = res
+	return res
 }
 
 // e2e: index one document, search it, return the stored bytes and the locations of field "body"
@@ -551,10 +920,37 @@ func doFrag(fsize int, orig []byte, ls []loc) string {
 	})
 }
 
-func doBest(kind string, fsize, num int, orig []byte, ls []loc) string {
-	return hlib.Catch(func() string {
-		return showStrings(highlighter(kind, fsize).BestFragments(toTLM(ls), orig, num))
-	})
+// doBest calls BestFragments `times` times on the same map (a fresh highlighter each time) and returns the sorted
+// set of distinct outputs joined by '|': OrderTermLocations ranges over a map and sorts with the unstable sort.Sort
+func doBest(kind string, fsize, num int, orig []byte, ls []loc, times int) string {
+	tlm := toTLM(ls)
+	seen := map[string]bool{}
+	var outs []string
+	for i := 0; i < times; i++ {
+		if i%4 == 3 { // a map built in another insertion order
+			rev := append([]loc{}, ls...)
+			for a, b := 0, len(rev)-1; a < b; a, b = a+1, b-1 {
+				rev[a], rev[b] = rev[b], rev[a]
+			}
+			tlm = toTLM(rev)
+		}
+		res := hlib.Catch(func() string {
+			return showStrings(highlighter(kind, fsize).BestFragments(tlm, orig, num))
+		})
+		if !seen[res] {
+			seen[res] = true
+			outs = append(outs, res)
+		}
+	}
+	sort.Strings(outs)
+	return strings.Join(outs, "|")
+}
+
+func timesFor(ls []loc) int {
+	if hasTies(ls) {
+		return 12
+	}
+	return 2
 }
 
 func (h) Exec(line string, out func(string, string), st *hlib.Stats, work string) {
@@ -632,7 +1028,14 @@ func (h) Exec(line string, out func(string, string), st *hlib.Stats, work string
 		ls := decLocs(w[5])
 		st.Count("best:" + w[1])
 		st.Count("fsize:" + w[2])
-		emit(line, doBest(w[1], fs, num, orig, ls), len(ls) > 0 || nonASCII(orig))
+		if hasTies(ls) {
+			st.Count("best:with-equal-starts")
+		}
+		res := doBest(w[1], fs, num, orig, ls, timesFor(ls))
+		if strings.Contains(res, "|") {
+			st.Count("best:several-outputs")
+		}
+		emit(line, res, len(ls) > 0 || nonASCII(orig))
 	case "e2e":
 		fs, _ := strconv.Atoi(w[4])
 		num, _ := strconv.Atoi(w[5])
@@ -664,7 +1067,76 @@ func (h) Exec(line string, out func(string, string), st *hlib.Stats, work string
 		emit(fmt.Sprintf("frag %d %s %s", fs, hx, encLocs(ord)), doFrag(fs, stored, ord), true)
 		st.Count("best:" + w[3])
 		st.Count("fsize:" + w[4])
-		emit(fmt.Sprintf("beste %s %d %d %s %s", w[3], fs, num, hx, encLocs(ls)), doBest(w[3], fs, num, stored, ls), true)
+		emit(fmt.Sprintf("beste %s %d %d %s %s", w[3], fs, num, hx, encLocs(ls)), doBest(w[3], fs, num, stored, ls, timesFor(ls)), true)
+	case "e2ex", "e2em":
+		fs, _ := strconv.Atoi(w[3])
+		num, _ := strconv.Atoi(w[4])
+		seed, _ := strconv.Atoi(w[6])
+		pr := hlib.NewRand(uint64(seed))
+		var a *analysis.Analyzer
+		var values [][]byte
+		if w[0] == "e2ex" {
+			a = newXAnalyzer(w[1])
+			values = [][]byte{unhex(w[5])}
+		} else {
+			a = newAnalyzer(w[1])
+			for _, hx := range strings.Split(w[5], ",") {
+				values = append(values, unhex(hx))
+			}
+		}
+		if a == nil {
+			out(line, "bad-op")
+			return
+		}
+		var toks analysis.TokenStream
+		for _, v := range values {
+			toks = append(toks, a.Analyze(append([]byte{}, v...))...)
+		}
+		terms := pickTerms(pr, toks)
+		which := pr.Intn(len(values))
+		stored, ls, matched, err := runTerms(a, values, terms)
+		if err != nil {
+			st.Count(w[0] + ":error")
+			out(line, "err")
+			return
+		}
+		if !matched || len(stored) != len(values) {
+			st.Count(w[0] + ":no-match")
+			return
+		}
+		st.Count(w[0] + ":matched")
+		st.Count(w[0] + ":analyzer:" + w[1])
+		ties, nested := false, false
+		for i, x := range ls {
+			for j, y := range ls {
+				if i != j && x.start == y.start && x.end != y.end {
+					ties = true
+				}
+				if i != j && x.start <= y.start && y.end <= x.end && (x.start != y.start || x.end != y.end) {
+					nested = true
+				}
+			}
+		}
+		if ties {
+			st.Count(w[0] + ":equal-start-different-end")
+		}
+		if nested {
+			st.Count(w[0] + ":nested")
+		}
+		ls = limitTies(ls)
+		orig := stored[which]
+		orig = orig[:len(orig):len(orig)]
+		res := doBest(w[2], fs, num, orig, ls, 24)
+		if strings.Contains(res, "|") {
+			st.Count(w[0] + ":several-outputs-for-one-input")
+		}
+		st.Count("best:" + w[2])
+		st.Count("fsize:" + w[3])
+		if w[0] == "e2ex" {
+			emit(fmt.Sprintf("bestx %s %d %d %s %s", w[2], fs, num, hlib.Hex(orig), encLocs(ls))+quietFor(work, "order", "marks"), res, true)
+		} else {
+			emit(fmt.Sprintf("bestm %s %d %d %s %s", w[2], fs, num, hlib.Hex(orig), encLocs(ls))+quietFor(work, "multi"), res, true)
+		}
 	default:
 		out(line, "bad-op")
 	}
